@@ -10,6 +10,7 @@ import (
 	"os"
 	"path"
 	"runtime/debug"
+	"sync"
 	"time"
 
 	"github.com/rs/zerolog/log"
@@ -89,7 +90,13 @@ func newGenerateCommand() *cobra.Command {
 
 // dedup fsnotify events
 func dedupLoop(configArgs map[string]string, w *fsnotify.Watcher, completedChannel chan<- error) {
+	// regenerations run on timer goroutines; they share the process working
+	// directory and the package-level config, so only one may run at a time
+	var regenerateMutex sync.Mutex
 	regenerate := func() {
+		regenerateMutex.Lock()
+		defer regenerateMutex.Unlock()
+
 		dirsToWatch := generateInWatchMode(configArgs)
 		if dirsToWatch != nil && len(dirsToWatch) > len(w.WatchList()) {
 			for _, dir := range dirsToWatch {
